@@ -1553,6 +1553,7 @@ pub fn rewrite_source_pool(rng: &mut Rng) -> Vec<GDoc> {
     out.extend(pick_sample(variable_object_cases(), 300, rng));
     out.extend(argument_sibling_cases());
     out.extend(argument_slot_cases());
+    out.extend(pick_sample(directive_argument_cases(), 100, rng));
     out.extend(directive_sibling_cases(rng, 300));
     out.extend(directive_mix_cases(rng, 300));
     out.extend(pick_sample(merge_exclusive_fragment_cases(), 300, rng));
@@ -1597,6 +1598,40 @@ pub fn variable_default_cases(si: &SchemaInfo) -> Vec<String> {
                 out.push(format!("query Q($v: {} = {}) {{ __typename }}", ty, l));
             }
             out.push(format!("query Q($v: {}) {{ __typename }}", ty));
+        }
+    }
+    out
+}
+
+/// C09: arguments of DIRECTIVES of every declaration kind (executable-only, type-system-only,
+/// mixed, with declared arguments, undeclared) at every kind of site, with an unknown argument,
+/// a duplicated argument, a declared argument, or none: the only possible violation sits on the directive
+pub fn directive_argument_cases() -> Vec<GDoc> {
+    let leaf = || GSel::Field { alias: None, name: "id".into(), args: vec![], dirs: vec![], sels: vec![] };
+    let mut out = vec![];
+    for dname in ["typeOnly", "mixA", "mixB", "onF", "any", "args", "zzUnknown", "skip"] {
+        for variant in 0..5usize {
+            let args: Vec<(String, GValue)> = match variant {
+                0 => vec![("zz".to_string(), GValue::Int(1))],
+                1 => vec![("zz".to_string(), GValue::Int(1)), ("zz".to_string(), GValue::Int(2))],
+                2 => vec![("int0".to_string(), GValue::Int(1))],
+                3 => vec![("int0".to_string(), GValue::Int(1)), ("zz".to_string(), GValue::Int(1)), ("int0".to_string(), GValue::Int(1))],
+                _ => vec![],
+            };
+            for site in 0..5usize {
+                let d = vec![GDir { name: dname.to_string(), args: args.clone() }];
+                let none: Vec<GDir> = vec![];
+                let pick = |s: usize| if s == site { d.clone() } else { none.clone() };
+                let inner = vec![
+                    GSel::Field { alias: None, name: "id".into(), args: vec![], dirs: pick(0), sels: vec![] },
+                    GSel::Inline { tc: Some("A".into()), dirs: pick(1), sels: vec![GSel::Field { alias: Some("x".into()), name: "arg1".into(), args: vec![("x".to_string(), GValue::Int(1))], dirs: vec![], sels: vec![leaf()] }] },
+                    GSel::Spread { name: "Fd".into(), dirs: pick(2) },
+                ];
+                out.push(GDoc(vec![
+                    GDef::Op { kind: OpKind::Query, name: Some("Q".into()), vars: vec![], dirs: pick(3), sels: vec![GSel::Field { alias: None, name: "a".into(), args: vec![], dirs: vec![], sels: inner }] },
+                    GDef::Frag { name: "Fd".into(), tc: "A".into(), dirs: pick(4), sels: vec![leaf()] },
+                ]));
+            }
         }
     }
     out
